@@ -69,7 +69,7 @@ Qed.
 (* ------------------------------------------------------------------ strict tokenizer: extension *)
 Lemma scl_take_line_app l t line rest : take_line l = Some (line, rest) -> take_line (l ++ t) = Some (line, rest ++ t).
 Proof.
-  unfold take_line. intros H.
+  rewrite !take_line_unfold. intros H.
   destruct (split_at LF l) as [[before rest']|] eqn:E; [|discriminate H].
   rewrite (scl_split_at_app _ _ t _ _ E).
   destruct (rev before) as [|c rb]; [discriminate H|].
